@@ -44,6 +44,14 @@ func genFor(model string) func(t *rapid.T) Case {
 					fr[k] = rapid.SampledFrom([]float64{0, 1, 1.5, -0.25}).Draw(t, "fv")
 				}
 			}
+		case "EmcDwc", "FixedConcentration":
+			// a concentration of exactly zero (below the documented lower bound, still a parameter value): the
+			// kernels return early on it, and the load must then be zero
+			for i := range c.A.Cell {
+				if rapid.IntRange(0, 5).Draw(t, "zeroConc") == 0 {
+					c.A.Cell[i][0] = 0
+				}
+			}
 		case "ComputeProportion":
 			dn := c.A.Inputs[simref.InputIndex(desc, "denominator")]
 			for k := range dn {
